@@ -350,9 +350,6 @@ func (p *wat2cWorker) buildFunc_ins(w io.Writer, fn *ast.Func, stk *valueTypeSta
 		scopeStackBase := p.scopeStackBases[len(p.scopeLabels)-labelIdx-1]
 		scopeResults := p.scopeResults[len(p.scopeLabels)-labelIdx-1]
 
-		// 而br-if因为涉及else分支(需要维持栈平衡), 当前block后续的指令假设br-if只消耗了一个i32用于条件,
-		// 因此这种条件br的目标block不能带返回值.
-		assert(len(scopeResults) == 0)
 
 		// 如果是跨越多个Block, 只需要丢弃中间block的栈数据即可
 		if scopeStackBase > stk.Len() {
@@ -361,6 +358,17 @@ func (p *wat2cWorker) buildFunc_ins(w io.Writer, fn *ast.Func, stk *valueTypeSta
 		}
 
 		sp0 := stk.Pop(token.I32)
+		if n := len(scopeResults); n > 0 {
+			// 目标block带返回值: 跳转时复制到目标位置, 不跳转时返回值保留在栈上
+			first := stk.Len() - n
+			assert(first >= scopeStackBase)
+			fmt.Fprintf(w, "%sif(R%d.i32) {", indent, sp0)
+			for k := 0; k < n && first > scopeStackBase; k++ {
+				fmt.Fprintf(w, " R%d = R%d;", scopeStackBase+k, first+k)
+			}
+			fmt.Fprintf(w, " goto L_%s_next; }\n", toCName(labelName))
+			break
+		}
 		assert(stk.Len() == scopeStackBase)
 
 		fmt.Fprintf(w, "%sif(R%d.i32) { goto L_%s_next; }\n",
